@@ -37,7 +37,7 @@ CHECKS = {
          "TLC checks Purity, mutual exclusion and cache faithfulness of the design for every history of <=3 (4) calls over a 15-call alphabet (same file under different paths and spellings, same base name with different content, relative paths, missing / unparsable files, wrong extension, SDL vs JSON) and every interleaving of lock acquisitions of 2 (3) threads; with PoisonRecovery = FALSE it produces the poisoned-cache counterexample. The real code runs TLC's histories, TLC's schedules (order of lock acquisitions forced by hooks) and free-running 2..16-thread sets; every outcome must equal the same call alone in a fresh process (4-8 fresh processes per call, which also detects unordered-collection nondeterminism) and every event log must be a behaviour of the specification.",
          "Trusted: TLC, the event folding in tools/c08.py (structural), the hook in graphql_client_codegen::verif. Bounds as stated; nondeterminism across processes is detected probabilistically.",
          "DESIGN.md §5 C08", "model_checking"),
- "C05": ("TLA+ operation-selection reference (OpSelect.tla) enumerated exhaustively by TLC over documents x requested name x normalization x mode x text decoration; every case replayed into the real generator through the string and the file route (syn-level reading of QUERY / OPERATION_NAME / ResponseData / Variables) and a compiled sample observed through to_value(build_query)",
+ "C05": ("TLA+ operation-selection reference (OpSelect.tla) enumerated exhaustively by TLC over documents x requested name x normalization x mode x text decoration; every case replayed into the real generator through the string and the file route (syn-level reading of QUERY / OPERATION_NAME / ResponseData / Variables) and a compiled sample observed through to_value(build_query); stage events (Resolved, Selected, Rendered) of real calls validated against the pipeline specification GraphqlClient.tla by TLC (Trace_Pipeline)",
          "Exhaustive over a name pool with normalisation near-misses, 1..2 (3) operations in any order, fragment placement and ten text decorations (CRLF, lone CR, tabs, commas, comments with quotes / non-ASCII, string escapes, block strings, no trailing newline, leading blank lines, astral characters). Each emitted module must carry the source text byte for byte, the unmodified name of one selected operation, and types derived from that same operation; derive mode must fail naming the operations when nothing matches.",
          "Trusted: TLC, the text renderer in tools/c05.py, syn::LitStr::value. heck's UpperCamelCase on the pool is a table in the spec. Name collisions of unselected multi-operation documents are outside the statement (recorded under C02).",
          "DESIGN.md §5 C05", "model_checking"),
